@@ -48,12 +48,13 @@ if m and f'"{ID}": (' not in dst:
     open('/verif/tools/mkmanifest.py', 'w').write(dst)
 elif not m:
     print("WARNING: no manifest entry found for", ID)
-# 5. registry
-p = '/verif/harness/src/props/mod.rs'; s = open(p).read()
-if f"pub mod {low};" not in s:
-    mods = sorted(set(re.findall(r"pub mod (c\d+);", s)) | {low})
-    body = "use crate::core::Property;\n\n" + "".join(f"pub mod {m};\n" for m in mods)
-    body += "\npub fn all() -> Vec<&'static dyn Property> {\n    vec![" + ", ".join(f"&{m}::{m.upper()}" for m in mods) + "]\n}\n\n"
-    body += "pub fn lookup(id: &str) -> Option<&'static dyn Property> {\n    all().into_iter().find(|p| p.id() == id)\n}\n"
-    open(p, 'w').write(body)
+# 5. registry: every .rs file / directory in props/ is a module; cNN modules are properties
+files = sorted(os.path.basename(f)[:-3] for f in glob.glob('/verif/harness/src/props/*.rs') if not f.endswith('mod.rs'))
+dirs = sorted(os.path.basename(d) for d in glob.glob('/verif/harness/src/props/*') if os.path.isdir(d))
+mods = sorted(set(files) | set(dirs))
+props = [m for m in mods if re.fullmatch(r'c\d+', m)]
+body = "use crate::core::Property;\n\n" + "".join(f"pub mod {m};\n" for m in mods)
+body += "\npub fn all() -> Vec<&'static dyn Property> {\n    vec![" + ", ".join(f"&{m}::{m.upper()}" for m in props) + "]\n}\n\n"
+body += "pub fn lookup(id: &str) -> Option<&'static dyn Property> {\n    all().into_iter().find(|p| p.id() == id)\n}\n"
+open('/verif/harness/src/props/mod.rs', 'w').write(body)
 print("integrated", ID)
